@@ -168,16 +168,18 @@ def life_inst(**kw):
     return {"module": "MC_Life", "constants": c, "invariants": LIFE_INV + ["Emit"]}
 
 
+# simulate: TLC evaluates the emitting invariant on every successor it generates while walking, so one walk of depth d
+# yields about d x branching behaviours (prefixes and siblings): num = 15 000 walks give ~1.3 million sequences
 LIFE_PLANS = {
     "C09": {"quick": [("c09q", life_inst(Ops="<-C09Ops", MaxSteps=4), None)],
             "thorough": [("c09t", life_inst(Ops="<-C09Ops", MaxSteps=5), None),
-                         ("c09t3", life_inst(Ops="<-C09Ops", MaxSteps=8, MaxInst=3), {"num": 300000, "depth": 9})]},
+                         ("c09t3", life_inst(Ops="<-C09Ops", MaxSteps=8, MaxInst=3), {"num": 15000, "depth": 9})]},
     "C11": {"quick": [("c11q", life_inst(Ops="<-C11Ops", MaxSteps=4), None)],
             "thorough": [("c11t", life_inst(Ops="<-C11Ops", MaxSteps=5), None),
-                         ("c11t3", life_inst(Ops="<-C11Ops", MaxSteps=8, MaxInst=3), {"num": 300000, "depth": 9})]},
+                         ("c11t3", life_inst(Ops="<-C11Ops", MaxSteps=8, MaxInst=3), {"num": 8000, "depth": 9})]},
     "C13": {"quick": [("c13q", life_inst(Ops="<-C13Ops", MaxSteps=5, MaxVals=6), None)],
             "thorough": [("c13t", life_inst(Ops="<-C13Ops", MaxSteps=6, MaxVals=8), None),
-                         ("c13t3", life_inst(Ops="<-C13Ops", MaxSteps=10, MaxInst=3, MaxVals=12), {"num": 300000, "depth": 11})]},
+                         ("c13t3", life_inst(Ops="<-C13Ops", MaxSteps=10, MaxInst=3, MaxVals=12), {"num": 8000, "depth": 11})]},
 }
 
 
